@@ -254,4 +254,23 @@ def relLitSelects (cols : List Src) (rows : List (List Lit)) : List (List (Src Ã
 /-- `UNION ALL` of constant SELECTs: the rows in order -/
 def evalUnionAll (selects : List (List (Src Ã— Lit))) : List (List Lit) := selects.map fun s => s.map (Â·.2)
 
+/-! ### the time-zone suffix of a temporal literal on SQLite (`translate_datetime_literal_with_sqlite_function`, gen_expr.rs)
+
+SQLite's date functions want `[+-]HH:MM`; the text of the literal may end in `[+-]HHMM`. The code replaces the match of
+`([+-]\d{2}):?(\d{2})$` by `\1:\2`. ASCII digits only (the lexer admits no others in a temporal literal). -/
+
+def isSign (c : Char) : Bool := c == '+' || c == '-'
+def isAsciiDigit (c : Char) : Bool := decide ('0'.toNat â‰¤ c.toNat) && decide (c.toNat â‰¤ '9'.toNat)
+
+def sqliteTz (s : Src) : Src :=
+  match s.reverse with
+  | d :: c :: b :: a :: sg :: rest =>
+    if isSign sg && isAsciiDigit a && isAsciiDigit b && isAsciiDigit c && isAsciiDigit d then
+      rest.reverse ++ [sg, a, b, ':', c, d]
+    else s
+  | _ => s
+
+/-- the statement text of a DATE literal on SQLite -/
+def sqliteDateLiteral (s : Src) : Src := "DATE(".toList ++ sqlQuote (sqliteTz s) ++ [')']
+
 end Model.Lit
